@@ -121,8 +121,11 @@ def run_case(case, rng):
             state["ep_acc"] = 0.0
             case.count("episodes_observed")
 
-    learner = RMAX(episodes=episodes, rmax=rmax, num_transition_samples=m, bellman_convergence_diff=tolv,
-                   seed=seed, event_listener_class=Probe)
+    from mon import defaults as Dflt
+    rkw, _om = Dflt.rely_on_defaults(case, rng, "RMAX", dict(episodes=episodes, rmax=rmax, num_transition_samples=m,
+                                                           bellman_convergence_diff=tolv, seed=seed))
+    learner = RMAX(event_listener_class=Probe, **rkw)
+    Dflt.in_force(case, "RMAX", learner, passed=rkw)
     if rng.random() < 0.25:
         # the same learner object is first trained on another problem (different size); nothing may leak
         sib = G.random_spec(rng, "proper", n_max=4, a_max=len(A), uniform_actions=True, allow_implicit=False,
